@@ -20,7 +20,8 @@ META = {
                   "into indices by prefix sums (group sizes 0..2 each, all diffs/flags/code offsets symbolic); the DEX lookup helpers "
                   "(get_class, get_encoded_method_descriptor, get_encoded_field_descriptor, get_encoded_methods_class, "
                   "get_encoded_fields_class) return exactly the matching items on a stub class list. Bounded (model-based): seeded random class models (0..5 classes, non-ASCII / $ identifiers, primitive / array / class types, "
-                  "wide parameters, equal field names of different type, overloads, abstract / native methods without code, "
+                  "wide parameters, equal field names of different type, fields whose class+name+type concatenations collide, classes "
+                  "without superclass (open finding KF-C05-1), overloads, abstract / native methods without code, "
                   "interfaces, source files) are serialised by an independent DEX writer, parsed (two files per process) and every "
                   "reported class / field / method / lookup compared with the model. Bounded: every shipped DEX file "
                   "(and seeded variants whose class_data index-diff encodings are re-written in non-canonical multi-byte ULEB128) is "
